@@ -1,6 +1,25 @@
 /- `mvdrv`: line-protocol driver.  Imports model/driver modules only (no Mathlib). -/
 import MysticVerif.Basic.Proto
+import MysticVerif.Drv.C01
+import MysticVerif.Drv.C02
+import MysticVerif.Drv.C03
+import MysticVerif.Drv.C04
+import MysticVerif.Drv.C05
+import MysticVerif.Drv.C06
+import MysticVerif.Drv.C07
+import MysticVerif.Drv.C08
+import MysticVerif.Drv.C09
+import MysticVerif.Drv.C10
+import MysticVerif.Drv.C11
+import MysticVerif.Drv.C12
+import MysticVerif.Drv.C13
+import MysticVerif.Drv.C14
+import MysticVerif.Drv.C15
+import MysticVerif.Drv.C16
 import MysticVerif.Drv.C17
+import MysticVerif.Drv.C18
+import MysticVerif.Drv.C19
+import MysticVerif.Drv.C20
 
 open MysticVerif
 
@@ -10,7 +29,26 @@ def dispatch (line : String) : String :=
   | some [] => "bad-op"
   | some (.sym p :: rest) =>
     match p with
+    | "C01" => DrvC01.handle rest
+    | "C02" => DrvC02.handle rest
+    | "C03" => DrvC03.handle rest
+    | "C04" => DrvC04.handle rest
+    | "C05" => DrvC05.handle rest
+    | "C06" => DrvC06.handle rest
+    | "C07" => DrvC07.handle rest
+    | "C08" => DrvC08.handle rest
+    | "C09" => DrvC09.handle rest
+    | "C10" => DrvC10.handle rest
+    | "C11" => DrvC11.handle rest
+    | "C12" => DrvC12.handle rest
+    | "C13" => DrvC13.handle rest
+    | "C14" => DrvC14.handle rest
+    | "C15" => DrvC15.handle rest
+    | "C16" => DrvC16.handle rest
     | "C17" => DrvC17.handle rest
+    | "C18" => DrvC18.handle rest
+    | "C19" => DrvC19.handle rest
+    | "C20" => DrvC20.handle rest
     | "ping" => "ok pong"
     | _ => "bad-op"
   | some _ => "bad-op"
